@@ -63,8 +63,20 @@ def run(tier, selftest):
     for i in range(1200 if thorough else 25):
         _, b = mergecheck.random_pair(rng, rng.choice([30, 60, 120, 240] if thorough else [20, 40]))
         rand_cases.append({"id": {"fam": "random", "n": i}, "G": mergecheck.to_abstract(b)})
+    # the axis references under every axis attribute (an AXIS_PTS_REF / CURVE_AXIS_REF is a reference whatever the type of its axis)
+    attr_cases = []
+    for c in cases:
+        site = c["id"].get("site", "")
+        if c["id"]["fam"] == "site" and (site.endswith("AXIS_PTS_REF.axis_points") or site.endswith("CURVE_AXIS_REF.curve_axis")):
+            owner_kind = site.split("/")[0]
+            for attr in ("STD_AXIS", "FIX_AXIS", "COM_AXIS", "RES_AXIS", "CURVE_AXIS"):
+                G = json.loads(json.dumps(c["G"]))
+                for e in G:
+                    if e["kind"] == owner_kind and any(sn == site for sn, _ in e.get("refs", [])):
+                        e["opts"] = {"axattr": attr}
+                attr_cases.append({"id": dict(c["id"], axattr=attr), "G": G})
     from checks import c10
-    two = c10.two_module_cases(cases, 1 if thorough else 7)
+    two = c10.two_module_cases(cases, 1 if thorough else 7) + attr_cases
     allc = cases + rand_cases + two
     mo = []
     for i, c in enumerate(allc):
@@ -115,7 +127,8 @@ def run(tier, selftest):
         "samples": [cases[0], cases[len(cases) // 2]["id"]],
         "case_families": fams,
         "random_modules": len(rand_cases),
-        "files_with_two_modules": len(two),
+        "files_with_two_modules": len(two) - len(attr_cases),
+        "axis_reference_cases_per_axis_attribute": len(attr_cases),
         "events_rejected": len(failed),
     }
     if binding:
